@@ -566,6 +566,7 @@ func init() {
 			guard(r, func() { ruleL7(r) })
 			guard(r, func() { ruleL8(r) })
 			guard(r, func() { ruleL9(r) })
+			guard(r, func() { ruleRegistryWritersSerial(r) })
 			guard(r, func() { ruleRegistryLists(r) })
 			guard(r, func() { ruleReadChunk(r) })
 			guard(r, func() { ruleQueryPaths(r) }) // the pooled Txn is handed to one caller at a time
